@@ -15,10 +15,10 @@ Qed.
 
 (* generate: with a fresh key, every fault script yields Ok, an explicit undo failure, or a plain error
    with document and both stores observably unchanged *)
-Theorem generate_atomic st k u sc fs r st' : ~ In k (s_keys st) ->
-  generate true st k u sc fs = (r, st') ->
+Theorem generate_atomic st k ou sc fs r st' : ~ In k (s_keys st) ->
+  generate true st k ou sc fs = (r, st') ->
   match r with
-  | SOk => (exists d', insert_method (s_doc st) {| m_id := u; m_data := k |} sc = inl d' /\ s_doc st' = d')
+  | SOk => (exists u d', ou = Some u /\ insert_method (s_doc st) {| m_id := u; m_data := k |} sc = inl d' /\ s_doc st' = d')
            /\ In k (s_keys st') /\ kids_get (s_kids st ++ [(k, k)]) k = kids_get (s_kids st') k
   | SPlain => same_obs st' st
   | SUndoFailed => True
@@ -26,12 +26,15 @@ Theorem generate_atomic st k u sc fs r st' : ~ In k (s_keys st) ->
 Proof.
   intros Hf. unfold generate. destruct (next fs) as [f1 fs1]. destruct f1.
   { intros H; inversion H; subst. apply same_obs_refl. }
+  destruct ou as [u|].
+  2:{ unfold undo_keygen. destruct (next fs1) as [f3 fs3]. destruct f3; intros H; inversion H; subst; [exact I|].
+      unfold same_obs. cbn [s_doc s_keys s_kids]. split; [reflexivity|split; [apply keys_del_fresh; exact Hf|intros dg; reflexivity]]. }
   destruct (insert_method (s_doc st) {| m_id := u; m_data := k |} sc) as [d'|e] eqn:Ei.
   - destruct (next fs1) as [f2 fs2].
     destruct (f2 || match kids_get (s_kids st) k with Some _ => true | None => false end) eqn:Ef.
     + unfold undo_keygen. destruct (next fs2) as [f3 fs3]. destruct f3; intros H; inversion H; subst; [exact I|].
       unfold same_obs. cbn [s_doc s_keys s_kids]. split; [reflexivity|split; [apply keys_del_fresh; exact Hf|intros dg; reflexivity]].
-    + intros H; inversion H; subst. cbn [s_doc s_keys s_kids]. split; [eauto|]. split; [|reflexivity].
+    + intros H; inversion H; subst. cbn [s_doc s_keys s_kids]. split; [exists u, d'; auto|]. split; [|reflexivity].
       apply in_app_iff. right. left. reflexivity.
   - unfold undo_keygen. destruct (next fs1) as [f3 fs3]. destruct f3; intros H; inversion H; subst; [exact I|].
     unfold same_obs. cbn [s_doc s_keys s_kids]. split; [reflexivity|split; [apply keys_del_fresh; exact Hf|intros dg; reflexivity]].
@@ -98,7 +101,7 @@ Qed.
 (* the tree's rollback of generate_method (remove_method instead of restoring the saved document) is
    refuted: a dangling reference with the new method's id is dropped although a plain error is returned *)
 Theorem generate_rollback_refuted : exists st k u sc fs st',
-  ~ In k (s_keys st) /\ generate false st k u sc fs = (SPlain, st') /\ s_doc st' <> s_doc st.
+  ~ In k (s_keys st) /\ generate false st k (Some u) sc fs = (SPlain, st') /\ s_doc st' <> s_doc st.
 Proof.
   pose (kk := {| u_did := 1; u_rest := 0; u_frag := Some 7 |}).
   exists {| s_doc := {| d_vm := []; d_rels := fun r => match r with RAuth => [Refer kk] | _ => [] end; d_svc := [] |}; s_keys := []; s_kids := [] |},
@@ -106,3 +109,12 @@ Proof.
   eexists. split; [cbn; tauto|]. split; [vm_compute; reflexivity|].
   cbn. intros E. apply (f_equal (fun d => length (d_rels d RAuth))) in E. cbn in E. discriminate.
 Qed.
+
+(* the construction error path: no fragment, and the store's JWK carries no kid *)
+Theorem generate_no_id st k sc fs r st' : ~ In k (s_keys st) -> generate true st k None sc fs = (r, st') ->
+  (r = SPlain /\ same_obs st' st) \/ r = SUndoFailed.
+Proof. intros Hf H. pose proof (generate_atomic st k None sc fs r st' Hf H) as A. destruct r; [|left; split; [reflexivity|exact A]|right; reflexivity].
+  destruct A as [[u [d' [E _]]] _]. discriminate. Qed.
+Example generate_no_id_undo : generate true {| s_doc := {| d_vm := []; d_rels := fun _ => []; d_svc := [] |}; s_keys := [3]; s_kids := [(3, 3)] |} 5 None SVm [false; false]
+  = (SPlain, {| s_doc := {| d_vm := []; d_rels := fun _ => []; d_svc := [] |}; s_keys := [3]; s_kids := [(3, 3)] |}).
+Proof. reflexivity. Qed.
